@@ -4,6 +4,6 @@ from props import c06, c05
 
 def generate(rng, n, tier):
     from props import corners
-    _corner = corners.setitem_cases()
+    _corner = corners.setitem_cases() + corners.validate_cases()
     half = n // 2
     return _corner + c06.generate(rng, half, tier, cast_p=0.8) + c05.generate(rng, n - half, tier, cast_p=0.9)
